@@ -302,6 +302,18 @@ def r5(ctx):
                     e = U.value_at(fi.node, t.test, t.lineno,
                                    keep=tuple(cells | {nb}))
                     for b in ast.walk(e):
+                        if isinstance(b, ast.Compare):
+                            ops_ = [b.left] + list(b.comparators)
+                            with_nb = [o for o in ops_ if any(
+                                isinstance(x, ast.Name) and x.id == nb
+                                for x in ast.walk(o))
+                                and not _only_in_type_lookup(o, nb)]
+                            with_cell = [o for o in ops_ if o not in with_nb
+                                         and {x.id for x in ast.walk(o)
+                                              if isinstance(x, ast.Name)}
+                                         & (cells - {'start'} | {'sci'})]
+                            if with_nb and with_cell:
+                                bad = t
                         if isinstance(b, ast.BinOp) and isinstance(
                                 b.op, (ast.Sub, ast.Add)):
                             ln = {x.id for x in ast.walk(b.left)
